@@ -19,11 +19,21 @@ pub fn node_model_line(op: &str) -> Option<String> {
         ["al", ..] | ["ks", ..] | ["ksdup", ..] | ["newch", ..] | ["forget", ..] | ["restart"] => Some(op.to_string()),
         // `world backup`: losing the main store and recovering from the backup is a restart for the model
         ["mainloss"] => Some("restart".to_string()),
+        // the heartbeat prunes old stubs, which depends on the tracker height: block requests are in the model too
+        ["hb"] | ["blk+", _] | ["blkn", _] | ["blk-", _] => Some(op.to_string()),
         _ => None,
     }
 }
 
-/// digest of the node-level state the `nodereq` model tracks
+/// digest of the node-level state the `nodereq` model tracks; block requests print the tracker height
+/// relative to the height at which the simulator started instead
+pub fn node_digest_for(sim: &Sim, op: &str) -> String {
+    if op.starts_with("blk") {
+        return format!("h={}", sim.node().get_chain_height() as i64 - sim.base_height as i64);
+    }
+    node_digest(sim)
+}
+
 pub fn node_digest(sim: &Sim) -> String {
     let node = sim.node();
     let own = make_test_funding_wallet_addr(&node, 5, lightning_signer::node::SpendType::P2wpkh).to_string();
@@ -93,6 +103,8 @@ impl Group for C10Sim {
             // a refused channel setup leaves the stub a stub; a different invoice for an issued hash is refused
             c("newch 2|setupbad 2 0|setupbad 2 1|newch 2|setupbad 2 2|setupbad 2 3|setupbad 3 0|forget 1"),
             c("sinv 0 100000|sinv 0 1000|sinv 0 100000|sinv 1 0|sinv 1 5000|sinv 1 0|restart|sinv 0 1000"),
+            // stubs age out at the heartbeat (more than six blocks); ids can be created again, forgetting them is a no-op
+            c("newch 2|newch 3|blkn 6|hb|blk+ g|hb|newch 2|forget 2|forget 1|newch 3|blk- g|blk- g|hb|newch 1"),
             // the channel map fills up: creation (also of an existing stub) is refused until one is forgotten
             c("newch 1|newch 2|newch 3|newch 4|newch 2|forget 2|newch 4|newch 5|restart|newch 5|forget 1|newch 5"),
             c("world perm|newch 2|newch 3|newch 5|newch 4|newch 3|forget 3|newch 4"),
@@ -175,7 +187,7 @@ impl Group for C10Sim {
                 Outcome::Panic(_) => {}
             }
             let line = if node_model_line(op).is_some() {
-                format!("{} {}", out.class().split(':').next().unwrap(), node_digest(&sim))
+                format!("{} {}", out.class().split(':').next().unwrap(), node_digest_for(&sim, op))
             } else {
                 out.class()
             };
